@@ -106,7 +106,9 @@ def processRewrite (rec : J) : Verdict := Id.run do
     v := v.addStat "in_size" (jnat p.size)
     -- the hypotheses of the instrumentation theorems (`master`), evaluated on this input
     v := v.addStat "hyp" (jstr (if ns p != 0 then "mentions-namespace" else if !targetsOk p then "foreign-assignment-target"
-      else if nt p != 0 then "reserved-temporary-name" else "met"))
+      else if nt p != 0 then "reserved-temporary-name"
+      else if cfg.methods.any (fun m => !m.operator && (m.src == Generated.addTag || m.src == Generated.addAssignTag || m.src == Generated.tplTag))
+        then "method-named-like-an-operator-tag" else "met"))
     if r.fuelOut then v := v.addCorr "fuel" (jstr "model ran out of fuel")
     -- outcome / status
     let realStatus :=
